@@ -67,6 +67,9 @@ type vfxSpec struct {
 	Boundary    bool   `json:"boundary"`     // extra objects whose section-length value is exactly 127,128,129,16383,16384,16385,...
 	ZeroTimes   bool   `json:"zero_times"`   // some blocks record block time 0
 	MultiSig    bool   `json:"multi_sig"`    // some transactions carry 2 or 3 signatures
+	EdgeTimes   bool   `json:"edge_times"`   // some blocks record block times 2^31-1, 2^31, 2^31+1 and 2^32-1
+	ShuffleNext bool   `json:"shuffle_next"` // the next-links of multi-frame payloads are listed in shuffled order
+	ShortSigs   bool   `json:"short_sigs"`   // some signatures are numerically small (base58 text of 84..86 characters)
 	OddRewards  bool   `json:"odd_rewards"`  // every block gets rewards; commission strings "", "7", "12.5" and one that is not a number
 	NoTxIndex   bool   `json:"no_tx_index"`  // Transaction nodes without the optional position index (archives written before the field existed)
 	Variant     int    `json:"variant"`      // alternative content for the same epoch ("another CAR of the same epoch")
@@ -87,6 +90,7 @@ type vfxTx struct {
 	Cid      string   `json:"cid"`
 	Vote     bool     `json:"vote"`
 	Failed   bool     `json:"failed"`
+	ErrName  string   `json:"err_name"` // the recorded TransactionError variant of a failed transaction
 	Accounts []string `json:"accounts"` // static account keys, base58
 	Loaded   []string `json:"loaded"`   // address-table loaded accounts (from meta), base58
 	TxB64    string   `json:"tx"`
@@ -180,6 +184,8 @@ type vfxGen struct {
 		data []byte
 	}
 	seen map[string]bool
+
+	shuffleNext bool
 }
 
 func (g *vfxGen) add(data []byte) cid.Cid {
@@ -239,6 +245,12 @@ func (g *vfxGen) frames(payload []byte, frameSize, fanOut int) (ipldbindcode.Dat
 			}
 			nx = append(nx, cidlink.Link{Cid: g.add(b)})
 		}
+		if g.shuffleNext && len(nx) > 1 { // frames are ordered by their index, not by the order of the links
+			for a := len(nx) - 1; a > 0; a-- {
+				c := g.rng.Intn(a + 1)
+				nx[a], nx[c] = nx[c], nx[a]
+			}
+		}
 		nxp := &nx
 		return ipldbindcode.DataFrame{Kind: 6, Hash: vfxPP(h), Index: vfxPP(i), Total: vfxPP(n), Data: chunks[i], Next: &nxp}
 	}
@@ -246,7 +258,7 @@ func (g *vfxGen) frames(payload []byte, frameSize, fanOut int) (ipldbindcode.Dat
 }
 
 func vfxGenerate(spec vfxSpec) (*vfxTruth, []byte) {
-	g := &vfxGen{rng: vh.NewRng(spec.Seed*1000003 + spec.Epoch*7919 + uint64(spec.Variant)*104729), seen: map[string]bool{}}
+	g := &vfxGen{rng: vh.NewRng(spec.Seed*1000003 + spec.Epoch*7919 + uint64(spec.Variant)*104729), seen: map[string]bool{}, shuffleNext: spec.ShuffleNext}
 	rng := g.rng
 	tr := &vfxTruth{Spec: spec}
 	base := spec.Epoch * vfxEpochLen
@@ -271,6 +283,18 @@ func vfxGenerate(spec vfxSpec) (*vfxTruth, []byte) {
 			continue
 		}
 		gb := vfxBlock{Slot: slot, Parent: parent, Blocktime: int64(1_600_000_000 + slot*2 + uint64(spec.Variant)), Height: slot/2 + uint64(rng.Intn(3)), HasHeight: rng.Intn(5) != 0}
+		if spec.EdgeTimes {
+			switch slot % 7 {
+			case 1:
+				gb.Blocktime = 1<<31 - 1
+			case 2:
+				gb.Blocktime = 1 << 31
+			case 3:
+				gb.Blocktime = 1<<31 + 1
+			case 4:
+				gb.Blocktime = 1<<32 - 1
+			}
+		}
 		if spec.ZeroTimes && rng.Intn(4) == 0 {
 			gb.Blocktime = 0 // early mainnet blocks record no block time
 		}
@@ -303,6 +327,16 @@ func vfxGenerate(spec vfxSpec) (*vfxTruth, []byte) {
 				binary.LittleEndian.PutUint64(sig[32:], slot) // keeps signatures distinct across slots
 				sig[40] = byte(pos)
 				sig[41] = byte(spec.Variant)
+				if spec.ShortSigs {
+					switch (int(slot) + pos) % 5 {
+					case 1:
+						sig[0], sig[1] = 0, 1 // '1' + 85 characters
+					case 2:
+						sig[0], sig[1], sig[2], sig[3] = 0, 0, 0, 1
+					case 3:
+						sig[0] = 1
+					}
+				}
 				vote := rng.Intn(3) == 0
 				failed := rng.Intn(4) == 0
 				var unique solana.PublicKey
@@ -377,8 +411,24 @@ func vfxGenerate(spec vfxSpec) (*vfxTruth, []byte) {
 						meta.LoadedReadonlyAddresses = [][]byte{l2[:]}
 					}
 				}
+				errName := ""
 				if failed {
-					meta.Err = &confirmed_block.TransactionError{Err: []byte{8, 0, 0, 0, 0, 25, 0, 0, 0, 1, 0, 0, 0}} // InstructionError(0, Custom(1))
+					// the bincode image of Solana's TransactionError, in the shapes the format has: a unit variant, a
+					// variant with a one-byte payload, an instruction error without and with payload
+					switch (int(slot) + pos) % 4 {
+					case 0:
+						meta.Err = &confirmed_block.TransactionError{Err: []byte{8, 0, 0, 0, 0, 25, 0, 0, 0, 1, 0, 0, 0}} // InstructionError(0, Custom(1))
+						errName = "Custom"
+					case 1:
+						meta.Err = &confirmed_block.TransactionError{Err: []byte{0, 0, 0, 0}} // AccountInUse
+						errName = "AccountInUse"
+					case 2:
+						meta.Err = &confirmed_block.TransactionError{Err: []byte{8, 0, 0, 0, 1, 3, 0, 0, 0}} // InstructionError(1, InvalidAccountData)
+						errName = "InvalidAccountData"
+					default:
+						meta.Err = &confirmed_block.TransactionError{Err: []byte{31, 0, 0, 0, 2}} // InsufficientFundsForRent { account_index: 2 }
+						errName = "InsufficientFundsForRent"
+					}
 				}
 				mb, err := proto.Marshal(meta)
 				if err != nil {
@@ -404,7 +454,7 @@ func vfxGenerate(spec vfxSpec) (*vfxTruth, []byte) {
 				}
 				tc := g.add(tb)
 				txLinks = append(txLinks, cidlink.Link{Cid: tc})
-				vt := vfxTx{Slot: slot, Pos: pos, Sig: sig.String(), Cid: hex.EncodeToString(tc.Bytes()), Vote: vote, Failed: failed,
+				vt := vfxTx{Slot: slot, Pos: pos, Sig: sig.String(), Cid: hex.EncodeToString(tc.Bytes()), Vote: vote, Failed: failed, ErrName: errName,
 					TxB64: base64.StdEncoding.EncodeToString(txb), MetaB64: base64.StdEncoding.EncodeToString(mb), Fee: meta.Fee, Frames: nfr, MetaFr: nmfr}
 				for _, a := range accs {
 					vt.Accounts = append(vt.Accounts, a.String())
